@@ -114,7 +114,7 @@ impl Decode<'_> for ErrorCode {
 //@item stun_rs :: mod types > impl crate::Decode<'_> for ErrorCode > fn decode
 //@tags C02 C03 C01
 //@sub "reason.len()" => "vx_str_len(reason)"
-//@before "if !(3..=6).contains(&class)"
+//@after "let class ="
     proof { let b = raw_value[2]; assert(b & 0x07 == b % 8) by (bit_vector); }
 //@before "if vx_str_len(reason)"
     proof {
